@@ -67,6 +67,9 @@ def main():
     from vf import plugin
     plugin.install()
     n_self = plugin.selftest()
+    if hasattr(mod, 'CH_PATCHES'):
+        # property-specific environment models (listed in META['stubs'])
+        mod.CH_PATCHES()
 
     from dataclasses import replace
     from time import process_time
